@@ -42,9 +42,8 @@ func (m *Map) LoadOrStore(key, value any) (actual any, loaded bool) {
 
 // Delete deletes the value for a key.
 func (m *Map) Delete(key any) {
-	if m.m == nil {
-		return
-	}
+	// Deleting from a nil map is a no-op, except that it panics for an unhashable
+	// key, as sync.Map does.
 	delete(m.m, key)
 }
 
